@@ -216,6 +216,10 @@ pub fn run(tier: Tier) -> i32 {
     cands.push("He said \"this is unclosed.".into());
     cands.push("i visited paris and microsoft in january with john.".into());
     cands.push("The 2st time, I payed 5$ and there there was teh problem, alot.".into());
+    // short harvested trigger words that are no sentence by themselves (`todo`) in a frame
+    for w in h.vocab.iter().filter(|w| w.chars().count() < 6) {
+        cands.push(format!("Add it to my {w} list."));
+    }
     let nd = cands.len();
     let per_doc: Vec<(Vec<(usize, Vec<Key>)>, bool)> = par_chunks(nd as u64, 40, ncpu(), |s, e| {
         let mut g = LintGroup::new_curated(curated.clone(), Dialect::American);
